@@ -147,7 +147,7 @@ structure IH3 (L : List VoteRec) (base : List Eff) (f : Nat) : Prop where
   enterPrecommitWait : ∀ s, A3 L base s → G3 L base (enterPrecommitWait f s)
   enterCommit : ∀ s b r, A3 L base s → (votesFor s.hvs r .precommit).decision s.n = some (some b) →
     G3 L base (enterCommit f s b r)
-  commitAndEnterNewHeight : ∀ s, A3 L base s → (s.stuck = true ∨ s.step = stCommit) →
+  commitAndEnterNewHeight : ∀ s, A3 L base s → ComQ L s →
     G3 L base (commitAndEnterNewHeight f s)
   enterNewHeight : ∀ s, A3 L base s → G3 L base (enterNewHeight f s)
   enterNewRound : ∀ s, A3 L base s → G3 L base (enterNewRound f s)
@@ -331,7 +331,7 @@ theorem s3_enterNewHeight (f : Nat) (ih : IH3 L base f) (s : S) (ha : A3 L base 
   · exact ha.h3
   exact ih.enterPropose _ (a3_rfs _ _ (by decide) (by decide) (by decide) (a3_rfh s ha))
 
-theorem a3_finalize (s : S) (b : Blk) (hst : s.stuck = false) (h8 : s.step = stCommit)
+theorem a3_finalize (s : S) (b : Blk) (hst : s.stuck = false) (h8 : ComQ L s)
     (hcur : s.cur.id = some b) (ha : A3 L base s) :
     A3 L base { s.emit (.finalize s.height b) with dbHeight := s.height } :=
   ⟨core_finalize s b ha.core,
@@ -339,16 +339,12 @@ theorem a3_finalize (s : S) (b : Blk) (hst : s.stuck = false) (h8 : s.step = stC
    h3_finalize s b hst h8 hcur ha.h3⟩
 
 theorem s3_commitAndEnterNewHeight (f : Nat) (ih : IH3 L base f) (s : S) (ha : A3 L base s)
-    (h8 : s.stuck = true ∨ s.step = stCommit) : G3 L base (commitAndEnterNewHeight (f+1) s) := by
+    (h8' : ComQ L s) : G3 L base (commitAndEnterNewHeight (f+1) s) := by
   unfold Goloop.C01.commitAndEnterNewHeight
   split
   · exact ha.h3
   rename_i hst
   have hst' : s.stuck = false := by simpa using hst
-  have h8' : s.step = stCommit := by
-    rcases h8 with h | h
-    · rw [h] at hst'; cases hst'
-    · exact h
   split
   · rename_i b validated hcur
     split
@@ -478,11 +474,11 @@ theorem s3_enterCommit (f : Nat) (ih : IH3 L base f) (s : S) (b r : Nat) (ha : A
           have := congrArg (fun p => p.1) (d5.trans e3); exact this
         rw [hn4, hs4, h3]
         exact hq
-  have h8 : (commitState s1 b r).stuck = true ∨ (commitState s1 b r).step = stCommit := by
-    rw [es, ep]
+  have h8 : ComQ L (commitState s1 b r) := by
+    intro hs
     rcases e5 with e5 | ⟨_, _, a3⟩
-    · exact Or.inl e5
-    · exact Or.inr a3
+    · rw [es, e5] at hs; cases hs
+    · exact g4.com hs (by rw [ep]; exact a3)
   split
   · exact ih.commitAndEnterNewHeight _ ⟨c4, b4, g4⟩ h8
   · exact g4
@@ -768,7 +764,7 @@ theorem e3_recvBlockPart (s : S) (h : Nat) (b : Blk) (ha : A3 L base s) : G3 L b
   split
   · rename_i _ h8
     simp only [Bool.and_eq_true, beq_iff_eq] at h8
-    exact (ih3_all L base _).commitAndEnterNewHeight _ a2 (Or.inr h8.1)
+    exact (ih3_all L base _).commitAndEnterNewHeight _ a2 (fun hs => a2.h3.com hs h8.1)
   · exact a2.h3
 
 theorem e3_recvVote (s : S) (m : VoteRec) (ha : A3 L base s) (hm : m ∈ L) : G3 L base (recvVoteEv s m) := by
@@ -858,7 +854,7 @@ theorem e3_asyncCommit (s : S) (h r : Nat) (ha : A3 L base s) (hst : s.stuck = f
     have a1 : A3 L base { s with cur := .full b true } :=
       a3_of_eq (s := s) ha rfl rfl rfl rfl rfl (by unfold cproj; simp only []; rw [hc]; rfl)
     exact (ih3_all L base _).enterNewHeight _
-      (a3_finalize { s with cur := .full b true } b hst hcond.2 rfl a1)
+      (a3_finalize { s with cur := .full b true } b hst (fun hs => a1.h3.com hs hcond.2) rfl a1)
   · exact h3_stuck ha.h3
 
 theorem e3_async (s : S) (ha : A3 L base s) : G3 L base (async s) := by
